@@ -305,7 +305,7 @@ def r8_5(ctx, rc):
     # (i) registration is control-dependent on not setup_failed
     for fname in ('_operation_from_json', '_use_cached_operation'):
         M = ctx.E.func(C + '.' + fname)
-        sg = ctx.E.super(M, lambda g: False)
+        sg = ctx.helpers_graph(M)
         stores = []
         for s in sg.nodes:
             if s.kind == 'out' and s.cn.kind == 'stmt' and \
